@@ -362,12 +362,23 @@ def int32_field(d, bw, xs, alt, salt):
     return ys
 
 
-def build_reprs(ir, d, dims, xs, idx, workdir, torch_ok):
+_PAD_CACHE: dict = {}
+
+
+def pad_pattern(n: int) -> bytes:
+    """The prefix pattern of large data files: byte i is (37 i + 11) mod 251 (same in the Lean driver)."""
+    if n not in _PAD_CACHE:
+        _PAD_CACHE[n] = ((37 * np.arange(n, dtype=np.uint64) + 11) % 251).astype(np.uint8).tobytes()
+    return _PAD_CACHE[n]
+
+
+def build_reprs(ir, d, dims, xs, idx, workdir, torch_ok, item_extra=None):
     """Yield (name, make, model_json, legal) for every representation of the logical tensor."""
     import ml_dtypes
     import onnx
     from onnx_ir import serde
 
+    item_extra = item_extra or {}
     code = int(d)
     nm, bw, _ = SPEC[code]
     n = len(xs)
@@ -481,6 +492,25 @@ def build_reprs(ir, d, dims, xs, idx, workdir, torch_ok):
             (lambda fn=fn, off=off, ln=ln: ir.ExternalTensor(fn, off, ln, d, shape=ir.Shape(dims), name="x", base_dir=workdir)),
             {"k": "external", "d": code, "dims": dims, "offset": off, "length": ln, "file": list(content)},
         )
+    # offsets at / beyond the mmap allocation granularity (4096) and beyond 1 MiB: the prefix is a
+    # pattern the model regenerates from `file_pad` (keeps the request small)
+    big = list(item_extra.get("ext_pre", []))
+    if idx % 7 == 0:
+        big.append([4096, 4097, 8192 + 5, 12288, 65536 + 1][(idx // 7) % 5])
+    if idx % 41 == 0:
+        big.append([1 << 20, (1 << 20) + 7, (1 << 20) + 4096][(idx // 41) % 3])
+    for j, pre in enumerate(big):
+        post = bytes((91 * i + 5) % 253 for i in range(3 * (j % 2)))
+        fn = f"ext_big_{j}.bin"
+        with open(os.path.join(workdir, fn), "wb") as f:
+            f.write(pad_pattern(pre))
+            f.write(rb + post)
+        ln = None if (idx + j) % 2 else len(rb)
+        add(
+            f"external:big{pre}",
+            (lambda fn=fn, pre=pre, ln=ln: ir.ExternalTensor(fn, pre, ln, d, shape=ir.Shape(dims), name="x", base_dir=workdir)),
+            {"k": "external", "d": code, "dims": dims, "offset": pre, "length": ln, "file_pad": pre, "file": list(rb + post)},
+        )
     # the external proto form through deserialize_tensor
     content = b"\x07\x09" + rb
     with open(os.path.join(workdir, "ext_p.bin"), "wb") as f:
@@ -514,6 +544,32 @@ def build_reprs(ir, d, dims, xs, idx, workdir, torch_ok):
             tm = {"k": "torch", "d": code, "dims": dims, "elems": [int(x) for x in xs]}
             add("torch", lambda: tensor_adapters.TorchTensor(tt), tm)
             add("ir.tensor(torch)", lambda: ir.tensor(tt), tm)
+            # contiguous views at a non-zero storage_offset of a larger storage (w[k:k+n], a row w[r], a
+            # scalar w[k], narrow): the bytes must come from data_ptr(), not from the start of the storage
+            umax = 2 if nm == "BOOL" else (1 << bw)
+            junk = lambda m, salt: [((73 * i + 29 + salt) * 2654435761) % umax for i in range(m)]
+            for vname, k, tail in (("torch-offset", [1, 3, 17, 5][idx % 4], 2), ("torch-row", n * (1 + idx % 2), n)):
+                if vname == "torch-row" and n == 0:
+                    continue
+                units = junk(k, idx) + [int(x) for x in xs] + junk(tail, idx + 7)
+                if nm == "BFLOAT16" or nm.startswith("FLOAT8") or bw < 8:
+                    flat = np.array(units, dtype=np.uint16 if bw == 16 else np.uint8)
+                else:
+                    flat = arr_from_bits(npdt, [len(units)], units).copy()
+                full = conv(torch.from_numpy(flat))
+                if vname == "torch-row":
+                    view = full.reshape(k // n + 2, n)[k // n].reshape(dims)
+                elif dims == []:
+                    view = full[k]
+                elif idx % 3 == 0:
+                    view = full.narrow(0, k, n).reshape(dims)
+                else:
+                    view = full[k : k + n].reshape(dims)
+                assert view.storage_offset() == k and view.is_contiguous(), (vname, k, view.storage_offset())
+                vm = {"k": "torch", "d": code, "dims": dims, "storage": units, "offset": k}
+                add(vname, (lambda view=view: tensor_adapters.TorchTensor(view)), vm)
+                if vname == "torch-offset":
+                    add("ir.tensor(torch-offset)", (lambda view=view: ir.tensor(view)), vm)
             if len(dims) == 2:
                 ttT = conv(torch.from_numpy(np.asfortranarray(base_np)))  # same logical content, column-major memory
                 add("torch-strided", lambda: tensor_adapters.TorchTensor(ttT), tm)
@@ -521,7 +577,7 @@ def build_reprs(ir, d, dims, xs, idx, workdir, torch_ok):
     # ---- LazyTensor around a rotating selection of the above
     base_reprs = list(out)
     for j, (name, make, model, _legal) in enumerate(base_reprs):
-        if (j + idx) % 3 == 0 or name.startswith(("external:pre0post0", "packed", "torch")) and (j + idx) % 2 == 0:
+        if (j + idx) % 3 == 0 or name.startswith(("external:pre0post0", "external:big", "packed", "torch")) and (j + idx) % 2 == 0:
             cache = bool((j + idx) % 2)
             add(
                 f"lazy>{name}",
@@ -532,7 +588,7 @@ def build_reprs(ir, d, dims, xs, idx, workdir, torch_ok):
 
 
 def kind_of(name: str) -> str:
-    k = name.split(":")[0]
+    k = name.split(":")[0].replace("ir.tensor(torch-offset)", "torch")
     k = k.replace("ir.tensor(array)", "array").replace("ir.tensor(list)", "array").replace("ir.tensor(torch)", "torch")
     k = k.replace("ir.tensor(proto)", "proto").replace("deserialize(external proto)", "external")
     for p in ("array", "packed", "torch"):
@@ -632,7 +688,7 @@ def work_logical(item: dict) -> list:
     recs = []
     torch_ok = torch_available()
     with tempfile.TemporaryDirectory(prefix="c04-") as workdir:
-        reprs = build_reprs(ir, d, dims, xs, idx, workdir, torch_ok)
+        reprs = build_reprs(ir, d, dims, xs, idx, workdir, torch_ok, item)
         # ONNX reference encoder agrees with the spec-level encoder of this file
         try:
             ref = numpy_helper.from_array(arr_from_bits(spec_np(item["d"]), dims, xs), "x")
@@ -668,7 +724,8 @@ def work_logical(item: dict) -> list:
                 f2: list = []
                 if legal:
                     oracle(ir, "roundtrip>" + name, d, dims, xs, o2, [], f2, torch_ok)
-                rt = {"req": {"m": "trepr.deserialize", "proto": proto_json(tp), "file": file}, "impl": strip(o2), "fails": f2}
+                rt = {"req": {"m": "trepr.deserialize", "proto": proto_json(tp), "file": file, "file_pad": model.get("file_pad")},
+                      "impl": strip(o2), "fails": f2}
             recs.append({"name": name, "item": item, "reqs": reqs, "dests": dests, "impl": strip(o), "fails": fails, "rt": rt, "legal": legal})
     return recs
 
